@@ -76,6 +76,9 @@ func c12WheelSize(r *verifh.Rng) int {
 // placed (absolute tick of its slot) only to aim delays at interesting slots; nothing depends on it.
 func c12Ops(r *verifh.Rng, n, interval int, g c12GenCfg) []string {
 	nkeys := r.Range(1, 5)
+	if r.Chance(1, 6) {
+		nkeys = r.Range(6, 40) // many timers per slot
+	}
 	var ops []string
 	abs := 0                  // ticks issued so far
 	phys := map[int]int{}     // key -> absolute tick at which the slot it was last placed in is scanned
@@ -133,6 +136,11 @@ func c12Ops(r *verifh.Rng, n, interval int, g c12GenCfg) []string {
 	}
 	key := func() int { return r.Intn(nkeys) }
 	set := func(k int) { ops = append(ops, fmt.Sprintf("set %d %d %d", k, r.Intn(1000), delay(k))) }
+	if nkeys > 5 {
+		for k := 0; k < nkeys; k++ {
+			set(k) // start with every key pending
+		}
+	}
 	move := func(k int) { ops = append(ops, fmt.Sprintf("move %d %d", k, delay(k))) }
 	remove := func(k int) { ops = append(ops, fmt.Sprintf("remove %d", k)) }
 	someTicks := func() {
@@ -261,6 +269,60 @@ func c12Ops(r *verifh.Rng, n, interval int, g c12GenCfg) []string {
 	return ops
 }
 
+// c12LongOps is one long history on a small wheel: bursts of timers on fresh keys (up to 1500 pending at once,
+// many per slot) that are re-timed, removed and fired, more than 10000 timers in total, so that the timers
+// map goes through SafeMap's deletion generations; then the usual operations on the aged wheel.
+func c12LongOps(r *verifh.Rng, n, interval int) []string {
+	var ops []string
+	key, total := 100, 0
+	tick := func(c int) {
+		for j := 0; j < c; j++ {
+			ops = append(ops, "tick")
+		}
+	}
+	d := func(maxSteps int) int { return r.Range(1, maxSteps)*interval + r.Intn(interval) }
+	goal := 10500 + r.Intn(1500)
+	for total < goal {
+		b := r.Pick(20, 200, 700, 1200, 1500)
+		base := key
+		for i := 0; i < b; i++ {
+			ops = append(ops, fmt.Sprintf("set %d %d %d", key, r.Intn(1000), d(2*n)))
+			key++
+		}
+		total += b
+		for j := 0; j < b/10; j++ {
+			k := base + r.Intn(b)
+			switch r.Intn(4) {
+			case 0:
+				ops = append(ops, fmt.Sprintf("remove %d", k))
+			case 1:
+				ops = append(ops, fmt.Sprintf("set %d %d %d", k, r.Intn(1000), d(3*n)))
+			default:
+				ops = append(ops, fmt.Sprintf("move %d %d", k, d(3*n)))
+			}
+			if r.Chance(1, 8) {
+				tick(1)
+			}
+		}
+		if r.Chance(1, 10) {
+			ops = append(ops, "drain")
+		}
+		tick(r.Range(1, 3*n+1))
+	}
+	tick(3*n + 1)
+	return append(ops, c12Ops(r, n, interval, c12GenCfg{})...)
+}
+
+func c12GenLong(r *verifh.Rng, mode, tk string) verifh.Section {
+	n := r.Pick(1, 2, 3, 7, 10)
+	interval := r.Pick(1, 7)
+	cfg := fmt.Sprintf("n=%d interval=%d mode=%s long=1", n, interval, mode)
+	if tk != "" {
+		cfg += " tk=" + tk
+	}
+	return verifh.Section{Cfg: cfg, Ops: c12LongOps(r, n, interval)}
+}
+
 func c12GenSections(r *verifh.Rng, nsec int, mode string, tks []string, g c12GenCfg) []verifh.Section {
 	var secs []verifh.Section
 	for i := 0; i < nsec; i++ {
@@ -276,11 +338,18 @@ func c12GenSections(r *verifh.Rng, nsec int, mode string, tks []string, g c12Gen
 }
 
 func c12GenWB(r *verifh.Rng) []verifh.Section {
-	return c12GenSections(r, verifh.Scale(90, 3000), "wb", nil, c12GenCfg{})
+	secs := c12GenSections(r, verifh.Scale(90, 3000), "wb", nil, c12GenCfg{})
+	for i := verifh.Scale(1, 3); i > 0; i-- {
+		secs = append(secs, c12GenLong(r, "wb", ""))
+	}
+	return secs
 }
 
 func c12GenAPI(r *verifh.Rng) []verifh.Section {
 	secs := c12GenSections(r, verifh.Scale(90, 2400), "api", []string{"sync", "fake", "sync"}, c12GenCfg{api: true})
+	for i := verifh.Scale(1, 2); i > 0; i-- {
+		secs = append(secs, c12GenLong(r, "api", r.PickS("sync", "fake")))
+	}
 	// NewTimingWheel's argument check
 	var ops []string
 	for i := 0; i < 24; i++ {
@@ -318,8 +387,23 @@ func (s *c12Sink) collect(base int) string {
 	out := s.fired
 	s.fired = nil
 	s.mu.Unlock()
-	sort.Strings(out)
+	sort.Slice(out, func(i, j int) bool { return c12Less(out[i], out[j]) })
 	return strings.Join(out, " ")
+}
+
+// c12Less orders `k:v` tokens numerically by key, then value (the driver prints the model's pairs in this order).
+func c12Less(a, b string) bool {
+	var ak, av, bk, bv int
+	if n, _ := fmt.Sscanf(a, "%d:%d", &ak, &av); n != 2 {
+		return a < b
+	}
+	if n, _ := fmt.Sscanf(b, "%d:%d", &bk, &bv); n != 2 {
+		return a < b
+	}
+	if ak != bk {
+		return ak < bk
+	}
+	return av < bv
 }
 
 func c12Key(s string) any {
